@@ -515,23 +515,30 @@ impl ClusterHandler for GenCommHandler<'_> {
                 let pase_sess_id =
                     matches!(sess.get_session_mode(), SessionMode::Pase { .. }).then(|| sess.id());
 
-                let fabric = state
+                // First persist the fabric and the network settings - prior to committing them in
+                // memory and prior to sending the other party a "success" status. Should the
+                // store fail, the fail-safe is still armed and rolls everything back when it
+                // expires; committing first would leave a fabric that is operational yet gone
+                // after the next restart, with the commissioner told that commissioning failed.
+                if let SessionMode::Case { fab_idx, .. } = sess.get_session_mode() {
+                    persist.store(state.fabrics.fabric(*fab_idx)?)?;
+                    ctx.networks().access(|networks| {
+                        networks.set_managed(true)?;
+
+                        persist
+                            .persist_mut()
+                            .store(NETWORKS_KEY, |buf| networks.save(buf))
+                    })?;
+                }
+
+                // (Fails - before anything was persisted - when not invoked over CASE)
+                state
                     .failsafe
                     .disarm(sess.get_session_mode(), &mut state.fabrics)?;
 
                 state.pase.close_comm_window(notify_mdns, notify_change)?;
                 state.sessions.remove_pase(pase_sess_id);
                 ctx.exchange().matter().transport().notify_session_removed();
-
-                // Finally, persist the fabric and the network settings, prior to sending the other party a "success" status
-                persist.store(fabric)?;
-                ctx.networks().access(|networks| {
-                    networks.set_managed(true)?;
-
-                    persist
-                        .persist_mut()
-                        .store(NETWORKS_KEY, |buf| networks.save(buf))
-                })?;
 
                 info!("Commissioning complete, fabric and network settings persisted");
 
